@@ -687,6 +687,28 @@ func ruleR36(c *Ctx) {
 							ev = "value store"
 						}
 					}
+					// val, found = leaf.value, true with `return val, found` as the single exit: the
+					// place that sets the flag is where the "found" answer is decided
+					if len(x.Lhs) == len(x.Rhs) && x.Tok == token.ASSIGN {
+						for i, l := range x.Lhs {
+							fv := identVar(info, l)
+							if fv == nil || !isConstBool(info, x.Rhs[i], true) || !resultFlag(info, u, fv) {
+								continue
+							}
+							nres := 0
+							if u.Type.Results != nil {
+								nres = u.Type.Results.NumFields()
+							}
+							parts := make([]string, nres)
+							for k := range parts {
+								parts[k] = "_"
+							}
+							if nres > 0 {
+								parts[nres-1] = "true"
+								ev = "return " + strings.Join(parts, ",")
+							}
+						}
+					}
 				case *ast.ExprStmt:
 					if call, ok := x.X.(*ast.CallExpr); ok {
 						name := m.calleeName(call)
@@ -1131,4 +1153,37 @@ func inlinedMatchLoop(info *types.Info, u *FuncUnit, v *types.Var) ast.Expr {
 		return start
 	}
 	return nil
+}
+
+// resultFlag: fv is a boolean local of u that is only ever assigned constants and is the last
+// result of a return statement of u.
+func resultFlag(info *types.Info, u *FuncUnit, fv *types.Var) bool {
+	if b, ok := fv.Type().Underlying().(*types.Basic); !ok || b.Kind() != types.Bool || u.Body == nil {
+		return false
+	}
+	onlyConst, returned := true, false
+	ast.Inspect(u.Body, func(n ast.Node) bool {
+		switch x := n.(type) {
+		case *ast.AssignStmt:
+			if len(x.Lhs) != len(x.Rhs) {
+				for _, l := range x.Lhs {
+					if identVar(info, l) == fv {
+						onlyConst = false
+					}
+				}
+				return true
+			}
+			for i, l := range x.Lhs {
+				if identVar(info, l) == fv && !isConstBool(info, x.Rhs[i], true) && !isConstBool(info, x.Rhs[i], false) {
+					onlyConst = false
+				}
+			}
+		case *ast.ReturnStmt:
+			if k := len(x.Results); k > 0 && identVar(info, ast.Unparen(x.Results[k-1])) == fv {
+				returned = true
+			}
+		}
+		return true
+	})
+	return onlyConst && returned
 }
